@@ -192,7 +192,7 @@ func genBounds(r *kernel.Rand, n int) (int, int) {
 	return a, b
 }
 
-func (e *reuseEngine) Generate(seed uint64, tier string) (json.RawMessage, error) {
+func (e *reuseEngine) Generate(seed uint64, tier string, run int) (json.RawMessage, error) {
 	rk := kernel.NewRand(seed, "knobs")
 	rg := kernel.NewRand(seed, "gen")
 	c := ReuseCase{Faces: pickFaceSpecs(rk)}
@@ -542,8 +542,19 @@ func toFontFeatures(fs []FeatSpec) []shaping.FontFeature {
 	return out
 }
 
+// reused runs the call on the object under test (skipped in reference-only mode).
+func reused(f func()) callResult {
+	if kernel.ReferenceOnly {
+		return callResult{}
+	}
+	return protect(f)
+}
+
 // compare is the common reused-vs-fresh verdict.
 func compare(kind string, r1, r2 callResult, got, want, cat string) *kernel.Violation {
+	if kernel.ReferenceOnly {
+		return nil
+	}
 	switch {
 	case r1.panicked && !r2.panicked:
 		return &kernel.Violation{Oracle: "fresh-equivalence", Site: kind + ":panic:" + r1.site,
@@ -554,7 +565,7 @@ func compare(kind string, r1, r2 callResult, got, want, cat string) *kernel.Viol
 	case r1.panicked && r2.panicked:
 		return nil // shared panic: not a reuse matter (counted by the caller)
 	}
-	if got != want {
+	if got != want && !kernel.ReferenceOnly {
 		if cat == "" {
 			cat = "result"
 		}
@@ -664,7 +675,7 @@ func (w *reuseWorld) opShape(op *ReuseOp) *kernel.Violation {
 	}
 
 	var got, want shaping.Output
-	r1 := protect(func() { got = w.shaper.Shape(mk(w.faces[i])) })
+	r1 := reused(func() { got = w.shaper.Shape(mk(w.faces[i])) })
 	clone := w.models[i].newFace()
 	w.fn[clone] = w.fn[w.faces[i]]
 	r2 := protect(func() { want = (&shaping.HarfbuzzShaper{}).Shape(mk(clone)) })
@@ -733,7 +744,7 @@ func digestFaceQueries(f *font.Face, gids []uint32) string {
 func (w *reuseWorld) opFaceQuery(op *ReuseOp) *kernel.Violation {
 	i := w.face(op.F)
 	var got, want string
-	r1 := protect(func() { got = digestFaceQueries(w.faces[i], op.Gids) })
+	r1 := reused(func() { got = digestFaceQueries(w.faces[i], op.Gids) })
 	clone := w.models[i].newFace()
 	r2 := protect(func() { want = digestFaceQueries(clone, op.Gids) })
 	if r1.panicked && r2.panicked {
@@ -797,7 +808,7 @@ func (w *reuseWorld) opHbShape(op *ReuseOp) *kernel.Violation {
 		w.probe("hb_buffer_reused")
 	}
 	var got, want string
-	r1 := protect(func() { w.hbuf.Clear(); run(w.hbuf, w.faces[i]); got = digestBuffer(w.hbuf) })
+	r1 := reused(func() { w.hbuf.Clear(); run(w.hbuf, w.faces[i]); got = digestBuffer(w.hbuf) })
 	clone := w.models[i].newFace()
 	r2 := protect(func() { b := harfbuzz.NewBuffer(); run(b, clone); want = digestBuffer(b) })
 	if r1.panicked && r2.panicked {
@@ -866,7 +877,7 @@ func (w *reuseWorld) opSplit(op *ReuseOp) *kernel.Violation {
 	w.invalidate("split")
 	var got, want []shaping.Input
 	var dg, dw string
-	r1 := protect(func() { got = w.seg.Split(w.splitInput(op), w.fontmap(op)); dg = digestInputs(got, w.fn) })
+	r1 := reused(func() { got = w.seg.Split(w.splitInput(op), w.fontmap(op)); dg = digestInputs(got, w.fn) })
 	r2 := protect(func() {
 		want = (&shaping.Segmenter{}).Split(w.splitInput(op), w.fontmap(op))
 		dw = digestInputs(want, w.fn)
@@ -969,7 +980,7 @@ func (w *reuseWorld) opWrap(op *ReuseOp) *kernel.Violation {
 	var got, want []shaping.Line
 	var tg, tw int
 	var dg, dw string
-	r1 := protect(func() {
+	r1 := reused(func() {
 		got, tg = w.wrap.WrapParagraph(p.config(), op.N, copyRunes(p.text), shaping.NewSliceIterator(copyOutputs(p.runs)))
 		dg = fmt.Sprintf("trunc=%d\n%s", tg, digestLines(got, w.fn))
 	})
@@ -1022,7 +1033,7 @@ func (w *reuseWorld) opPrepare(op *ReuseOp) *kernel.Violation {
 		w.probe("wrapper_reused")
 	}
 	w.refWrap = &shaping.LineWrapper{}
-	r1 := protect(func() {
+	r1 := reused(func() {
 		w.wrap.Prepare(p.config(), copyRunes(p.text), shaping.NewSliceIterator(copyOutputs(p.runs)))
 	})
 	r2 := protect(func() {
@@ -1047,7 +1058,7 @@ func (w *reuseWorld) opNextLine(op *ReuseOp) *kernel.Violation {
 	var got, want shaping.WrappedLine
 	var dg, dw string
 	var d1, d2 bool
-	r1 := protect(func() { got, d1 = w.wrap.WrapNextLine(op.N); dg = digestWrapped(got, d1, w.fn) })
+	r1 := reused(func() { got, d1 = w.wrap.WrapNextLine(op.N); dg = digestWrapped(got, d1, w.fn) })
 	r2 := protect(func() { want, d2 = w.refWrap.WrapNextLine(op.N); dw = digestWrapped(want, d2, w.fn) })
 	if r1.panicked && r2.panicked {
 		w.out.Count("shared_panic.nextline", 1)
@@ -1122,13 +1133,19 @@ func collectSegments(text []rune) (out [3][]usegSeg) {
 
 func (u *usegWorld) exec(op *ReuseOp, out *kernel.Outcome, trace *uint64) *kernel.Violation {
 	logf := func(s string) { *trace = kernel.SplitMix64(*trace ^ kernel.HashString(s)) }
+	if kernel.ReferenceOnly {
+		if op.K == "uinit" {
+			protect(func() { collectSegments([]rune(op.Text)) })
+		}
+		return nil
+	}
 	switch op.K {
 	case "uinit":
 		text := []rune(op.Text)
 		u.text = text
 		u.passed = copyRunes(text)
 		u.iters = nil
-		res := protect(func() { u.seg.Init(u.passed) })
+		res := reused(func() { u.seg.Init(u.passed) })
 		ref := protect(func() { u.model = collectSegments(text) })
 		if res.panicked != ref.panicked {
 			return compare("uinit", res, ref, "", "", "")
